@@ -61,6 +61,9 @@ pub struct SeqSpec {
     pub max_reopens: usize,
     /// how many refused operations a history may contain
     pub max_refused: usize,
+    /// 0: single refused calls and batches whose first entry is refused;
+    /// 1: + batches whose second entry is refused; 2: + rarer batch variants
+    pub refused_level: u8,
     pub oracles: Oracles,
     /// stop generating new work after this wall time
     pub wall_cap: Duration,
@@ -365,12 +368,15 @@ pub fn run(spec: &SeqSpec, hist: &[Op], cfg: &Cfg, stats: &SeqStats) -> Result<R
             }
             _ => {
                 let model_before = m.clone();
-                let snap = if o.refused_no_trace && !model_before.accepts(op) {
+                let (ok, placed) = model_step(&mut m, &mut j, op);
+                // a refused call that journalled nothing must leave no trace at
+                // all (before/after snapshot); a batch whose leading entries were
+                // accepted is compared with the model that holds exactly them
+                let snap = if o.refused_no_trace && !ok && placed.is_empty() {
                     Some(snapshot(&sut))
                 } else {
                     None
                 };
-                let (ok, placed) = model_step(&mut m, &mut j, op);
                 if !ok {
                     stats.refused_calls.fetch_add(1, Ordering::Relaxed);
                 }
@@ -918,7 +924,7 @@ fn successors(spec: &SeqSpec, n: &Node) -> Vec<(String, Op, bool)> {
         }
     }
     if n.refused < spec.max_refused {
-        for (s, o) in alphabet::refused(&n.model) {
+        for (s, o) in alphabet::refused(&n.model, spec.refused_level) {
             v.push((s.to_string(), o, true));
         }
     }
